@@ -291,6 +291,11 @@ func c08Execute(r *simkit.Run, n, t, nbyz int, L int64, tape []int, crash c08Cra
 	}
 	// (consistency) C07's oracle over all keypers
 	checkDKGAgreement(r, w, eon, nodes)
+	// (exactly-once, end to end) the observers' mirror of shuttermint equals the application
+	if !out.crashed {
+		w.quietTail()
+		checkObserverMirror(r, w, where+": ", nodes)
+	}
 	// (single commitment) + (outbox order) from what shuttermint received
 	var commitments [][]byte
 	lastIdx := -1
